@@ -30,18 +30,20 @@ func init() {
 		ID:        "C13",
 		Title:     "Go and kernel-program views of shared BPF data structures agree",
 		Level:     "proof",
-		Technique: "static layout comparison: clang 14 record layouts (IPv4 and IPv6 builds of every BPF program) vs go/types constant folding and gc struct layout",
+		Technique: "static layout comparison: clang 14 record layouts (IPv4 and IPv6 builds of every BPF program) vs go/types constant folding and gc struct layout; SSA value derivation (reaching definitions + interval arithmetic with loop trip bounds) for computed state offsets",
 		DesignRef: "DESIGN.md §3 C13",
 		Explanation: "Purely static property, decided for every anchor the machinery enumerates: (state) every polprog asm.FieldOffset naming state->x equals clang's offset of member x of struct cali_tc_state in the IPv4 and IPv6 builds, and every Load/Store width through it stays inside that member; " +
+			"(stateflow) every FieldOffset value that reaches an asm Load*/Store* call in polprog - directly, through the leg->offset functions, through parameters, or through a local whose Offset is adjusted - derives from a named state offset plus a term with a computed bound (constants, loop counters bounded by their loop guard and len() of make()d slices, accumulation bounded by the trip count of the carrying loop), and [base+lo, base+hi+width) lies inside the C member the base names in every build; the named offsets are never written outside the package initialiser; " +
 			"(mirror) every named field of the Go state.State mirror starts and ends on C field boundaries, the Go struct is exactly expectedSize, C sizeof <= expectedSize <= entrySize == the cali_state map value size; " +
 			"(maps) for every Go maps.MapParameters literal whose versioned name is a map declared by a BPF program, KeySize/ValueSize equal sizeof of the C key/value types in every build that declares it; " +
 			"(access) every constant byte range or index that Go code applies to a [N]byte key/value type tied to such a map starts and ends on a field boundary of the C key/value type.",
-		NotDecided: "Byte order and signedness of individual fields; accesses through non-constant offsets or through plain []byte; that a Go accessor reads the field its name suggests (only that it reads whole fields).",
+		NotDecided: "Byte order and signedness of individual fields; which word of a member a computed state offset selects (only that it stays inside the member; the bound is an interval over-approximation); the pointer register an offset is applied to; state offsets outside polprog; accesses through non-constant offsets or through plain []byte; that a Go accessor reads the field its name suggests (only that it reads whole fields).",
 		Assumptions: []string{
 			"clang 14 record layout for -target bpf (x86_64 defines) equals the layout of the compiled programs",
 			"/verif/cstubs (bpf_helpers.h, bpf_endian.h, bpf_core_read.h: macros only) stand in for libbpf, which is not vendored",
 			"go/types gc/amd64 sizes for the Go mirror struct",
 			"map declarations are the variables the CALI_MAP* macros place in section .maps",
+			"computed state offsets do not overflow int16 (conversions are treated as value-preserving); go/ssa local Allocs are re-initialised each time the declaration executes",
 		},
 		Run: runC13,
 		Fixtures: []Fixture{
@@ -49,6 +51,16 @@ func init() {
 				Old: "stateEventHdrSize + 84, Field: \"state->pol_rc\"", New: "stateEventHdrSize + 88, Field: \"state->pol_rc\"", Expect: "C13.state/offset/stateOffPolResult"},
 			{Name: "flags offset stale after a C-side insertion", File: "felix/bpf/polprog/pol_prog_builder.go",
 				Old: "stateEventHdrSize + 360, Field: \"state->flags\"", New: "stateEventHdrSize + 352, Field: \"state->flags\"", Expect: "C13.state/offset/stateOffFlags"},
+			{Name: "C13-2: address-field offset hoisted out of the per-word loop, += section*4 accumulates", File: "felix/bpf/polprog/pol_prog_builder.go",
+				Old:    "\t\tfor section, addr := range addrU32 {\n\t\t\t// Optimisation: If mask for this section, i.e. this match, is 0,\n\t\t\t// then we can skip the match since the result of AND operation is\n\t\t\t// irrelevant of packet address. However, we need to check at least one 32bit section.\n\t\t\tif section > 0 && maskU32[section] == 0 {\n\t\t\t\tbreak\n\t\t\t}\n\n\t\t\toffset := leg.offsetToStateIPAddressField()\n",
+				New:    "\t\toffset := leg.offsetToStateIPAddressField()\n\t\tfor section, addr := range addrU32 {\n\t\t\tif section > 0 && maskU32[section] == 0 {\n\t\t\t\tbreak\n\t\t\t}\n",
+				Expect: "C13.stateflow/Builder.writeCIDRSMatch/Load32/"},
+			{Name: "per-word stride of the CIDR match doubled", File: "felix/bpf/polprog/pol_prog_builder.go",
+				Old: "offset.Offset += int16(section * 4)", New: "offset.Offset += int16(section * 8)", Expect: "C13.stateflow/Builder.writeCIDRSMatch/Load32/"},
+			{Name: "IP set key: second half of the IPv6 address read from the next state field", File: "felix/bpf/polprog/pol_prog_builder.go",
+				Old: "ipOffset.Offset += 8", New: "ipOffset.Offset += 16", Expect: "C13.stateflow/Builder.setUpIPSetKey/Load64/"},
+			{Name: "port field loaded as 32 bits through the leg->offset function", File: "felix/bpf/polprog/pol_prog_builder.go",
+				Old: "\tp.b.Load16(asm.R1, asm.R9, leg.offsetToStatePortField())\n\tfor", New: "\tp.b.Load32(asm.R1, asm.R9, leg.offsetToStatePortField())\n\tfor", Expect: "C13.stateflow/Builder.writePortsMatch/Load32/"},
 			{Name: "Go mirror loses one word of the tunnel address", File: "felix/bpf/state/map.go",
 				Old: "\tTunIP3              uint32\n", New: "", Expect: "C13.mirror/"},
 			{Name: "conntrack value size constant stale", File: "felix/bpf/conntrack/v4/map.go",
@@ -82,6 +94,7 @@ func (g *goMapParams) symbol() string {
 
 func runC13(c *Ctx) {
 	c.Rule("C13.state", "E-LAYOUT", "polprog FieldOffset{Offset, Field:\"state->x\"}: Offset == clang offset of x in struct cali_tc_state (v4 and v6 builds); Load/Store width stays inside the member", 17)
+	c.Rule("C13.stateflow", "E-LAYOUT/E-RANGE", "every FieldOffset reaching an asm Load*/Store* in polprog derives from a named state offset plus a bounded term (constants, loop counters bounded by their guard, accumulation bounded by the loop's trip count): [base+lo, base+hi+width) stays inside the C member the base names, in every build", 24)
 	c.Rule("C13.mirror", "E-LAYOUT", "Go state.State fields start and end on C field boundaries; size chain C sizeof <= expectedSize == Sizeof(State) <= entrySize == map value size", 40)
 	c.Rule("C13.maps", "E-LAYOUT", "MapParameters.KeySize/ValueSize == sizeof(C key/value type) for every map declared on both sides", 60)
 	c.Rule("C13.access", "E-LAYOUT", "constant byte ranges on [N]byte key/value types coincide with C field boundaries", 120)
@@ -90,6 +103,7 @@ func runC13(c *Ctx) {
 	p := c.LoadWith(LoadOpts{NoSSA: true}, "felix/bpf/...")
 
 	c13State(c, p, L)
+	c13StateFlow(c, c.Load("felix/bpf/polprog"), L)
 	c13Mirror(c, p, L)
 	gm := c13Maps(c, p, L)
 	c13Access(c, p, L, gm)
@@ -108,51 +122,8 @@ func c13State(c *Ctx, p *Prog, L *cLayouts) {
 	if len(recs) < 2 {
 		c.Lost("struct cali_tc_state found in %d C configs", len(recs))
 	}
-	type fo struct {
-		obj    types.Object
-		off    int64
-		member string
-	}
-	var fos []fo
-	for _, f := range pk.Syntax {
-		ast.Inspect(f, func(n ast.Node) bool {
-			vs, ok := n.(*ast.ValueSpec)
-			if !ok {
-				return true
-			}
-			for i, v := range vs.Values {
-				cl, ok := ast.Unparen(v).(*ast.CompositeLit)
-				if !ok || qualTypeName(pk.TypesInfo.TypeOf(cl)) != "felix/bpf/asm.FieldOffset" || i >= len(vs.Names) {
-					continue
-				}
-				var off constant.Value
-				field := ""
-				for _, e := range cl.Elts {
-					kv, ok := e.(*ast.KeyValueExpr)
-					if !ok {
-						continue
-					}
-					k, _ := kv.Key.(*ast.Ident)
-					if k == nil {
-						continue
-					}
-					if cv, ok := constValue(pk.TypesInfo, kv.Value); ok {
-						if k.Name == "Offset" {
-							off = cv
-						} else if k.Name == "Field" {
-							field = constant.StringVal(cv)
-						}
-					}
-				}
-				if off == nil || !strings.HasPrefix(field, "state->") {
-					continue
-				}
-				o, _ := constant.Int64Val(off)
-				fos = append(fos, fo{pk.TypesInfo.Defs[vs.Names[i]], o, strings.TrimPrefix(field, "state->")})
-			}
-			return true
-		})
-	}
+	type fo = c13StateOff
+	fos := c13StateOffsets(pk)
 	if len(fos) == 0 {
 		c.Lost("no asm.FieldOffset{Field:\"state->…\"} in polprog")
 	}
@@ -228,6 +199,208 @@ func c13State(c *Ctx, p *Prog, L *cLayouts) {
 		c.Check(len(bad) == 0, fmt.Sprintf("C13.state/width/%s/%d", k.obj.Name(), k.width*8), p.Pos(seen[k]),
 			fmt.Sprintf("%d-byte access at state->%s stays inside the member", k.width, f.member), strings.Join(bad, "; "))
 	}
+}
+
+// c13StateOff: a package-level `name = asm.FieldOffset{Offset: k, Field: "state->member"}`.
+type c13StateOff struct {
+	obj    types.Object
+	off    int64
+	member string
+}
+
+func c13StateOffsets(pk *packages.Package) []c13StateOff {
+	var fos []c13StateOff
+	for _, f := range pk.Syntax {
+		ast.Inspect(f, func(n ast.Node) bool {
+			vs, ok := n.(*ast.ValueSpec)
+			if !ok {
+				return true
+			}
+			for i, v := range vs.Values {
+				cl, ok := ast.Unparen(v).(*ast.CompositeLit)
+				if !ok || qualTypeName(pk.TypesInfo.TypeOf(cl)) != "felix/bpf/asm.FieldOffset" || i >= len(vs.Names) {
+					continue
+				}
+				var off constant.Value
+				field := ""
+				for _, e := range cl.Elts {
+					kv, ok := e.(*ast.KeyValueExpr)
+					if !ok {
+						continue
+					}
+					k, _ := kv.Key.(*ast.Ident)
+					if k == nil {
+						continue
+					}
+					if cv, ok := constValue(pk.TypesInfo, kv.Value); ok {
+						if k.Name == "Offset" {
+							off = cv
+						} else if k.Name == "Field" {
+							field = constant.StringVal(cv)
+						}
+					}
+				}
+				if off == nil || !strings.HasPrefix(field, "state->") {
+					continue
+				}
+				o, _ := constant.Int64Val(off)
+				fos = append(fos, c13StateOff{pk.TypesInfo.Defs[vs.Names[i]], o, strings.TrimPrefix(field, "state->")})
+			}
+			return true
+		})
+	}
+	return fos
+}
+
+var reLoadStoreAny = regexp.MustCompile(`^(Load|Store)(Stack)?(8|16|32|64)$`)
+
+// c13StateFlow: value derivation for every FieldOffset that polprog hands to an
+// asm Load*/Store*  (engine_C13.go).  ps is an SSA load of felix/bpf/polprog.
+func c13StateFlow(c *Ctx, ps *Prog, L *cLayouts) {
+	const pkgPath = "felix/bpf/polprog"
+	pk := ps.Pkg(pkgPath)
+	if pk == nil || ps.SSAPkg(pkgPath) == nil {
+		c.Lost("package felix/bpf/polprog (SSA)")
+	}
+	recs := L.record("struct cali_tc_state")
+	if len(recs) < 2 {
+		c.Lost("struct cali_tc_state found in %d C configs", len(recs))
+	}
+	foObj, _ := ps.LookupExt("felix/bpf/asm", "FieldOffset").(*types.TypeName)
+	if foObj == nil {
+		c.Lost("type felix/bpf/asm.FieldOffset")
+	}
+	state := map[string]bool{}
+	offOf := map[string]c13StateOff{}
+	for _, f := range c13StateOffsets(pk) {
+		if f.obj != nil && f.obj.Parent() == pk.Types.Scope() {
+			state[f.obj.Name()] = true
+			offOf[f.obj.Name()] = f
+		}
+	}
+	if len(state) == 0 {
+		c.Lost("no package-level asm.FieldOffset{Field:\"state->…\"} in polprog")
+	}
+	fl := newC13Flow(ps, pkgPath, foObj.Type(), state)
+	if fl == nil {
+		c.Lost("SSA package felix/bpf/polprog")
+	}
+	muts := fl.mutations()
+	c.Check(len(muts) == 0, "C13.stateflow/constants", ps.Pos(pk.Syntax[0].Pos()),
+		fmt.Sprintf("the %d named state offsets are only read outside the package initialiser", len(state)),
+		"named state offsets are not constants: "+strings.Join(muts, "; "))
+
+	type agg struct {
+		site       string
+		ok         []string
+		bad, undec []string
+	}
+	res := map[string]*agg{}
+	get := func(key, site string) *agg {
+		a := res[key]
+		if a == nil {
+			a = &agg{site: site}
+			res[key] = a
+		}
+		return a
+	}
+	nSinks := 0
+	for _, s := range fl.sinks("felix/bpf/asm", func(name string) int {
+		if m := reLoadStoreAny.FindStringSubmatch(name); m != nil {
+			w, _ := strconv.Atoi(m[3])
+			return w / 8
+		}
+		return 0
+	}) {
+		nSinks++
+		where := fnName(topFn(s.fn))
+		site := ps.Pos(s.call.Pos())
+		if s.val.top {
+			get("C13.stateflow/"+where+"/"+s.method+"/underived", site).undec = append(get("C13.stateflow/"+where+"/"+s.method+"/underived", site).undec,
+				fmt.Sprintf("%s: the offset argument cannot be derived from named state offsets: %s", site, s.val.why))
+			continue
+		}
+		bases := s.val.bases()
+		if len(bases) == 0 {
+			if s.inline != "" {
+				a := get("C13.stateflow/"+where+"/"+s.method+"/inline", site)
+				a.undec = append(a.undec, fmt.Sprintf("%s: inline FieldOffset literal naming %q is not one of the named (checked) state offsets", site, s.inline))
+			}
+			continue // not a state offset (skb->…, stack, computed pointer)
+		}
+		for _, bn := range bases {
+			key := "C13.stateflow/" + where + "/" + s.method + "/" + bn
+			a := get(key, site)
+			base := offOf[bn]
+			iv := s.val.m[bn]
+			if s.width == 0 {
+				a.undec = append(a.undec, fmt.Sprintf("%s: access width of asm.%s is not known", site, s.method))
+				continue
+			}
+			if !iv.finite() {
+				a.undec = append(a.undec, fmt.Sprintf("%s: the term added to %s is not bounded: %s%s", site, bn, iv, c13because(s.val.note)))
+				continue
+			}
+			byMsg := map[string][]string{}
+			for _, cn := range sortedKeys(recs) {
+				lo, hi, ok := recs[cn].topLevelAt(int(base.off))
+				if !ok {
+					byMsg[fmt.Sprintf("no member at %d", base.off)] = append(byMsg[fmt.Sprintf("no member at %d", base.off)], cn)
+					continue
+				}
+				if base.off+iv.lo < int64(lo) || base.off+iv.hi+int64(s.width) > int64(hi) {
+					m := fmt.Sprintf("%d-byte access at state->%s + %s can cover bytes [%d,%d) of struct cali_tc_state but the member is [%d,%d)", s.width, base.member, iv,
+						base.off+iv.lo, base.off+iv.hi+int64(s.width), lo, hi)
+					byMsg[m] = append(byMsg[m], cn)
+				}
+			}
+			var bad []string
+			for _, m := range sortedKeys(byMsg) {
+				if len(byMsg[m]) == len(recs) {
+					bad = append(bad, fmt.Sprintf("%s in all %d builds", m, len(recs)))
+				} else {
+					bad = append(bad, fmt.Sprintf("%s in %s", m, strings.Join(byMsg[m], ", ")))
+				}
+			}
+			if len(bad) > 0 {
+				a.bad = append(a.bad, fmt.Sprintf("%s: %s%s", site, strings.Join(bad, "; "), c13because(s.val.note)))
+			} else {
+				a.ok = append(a.ok, fmt.Sprintf("%s+%s", base.member, iv))
+			}
+		}
+	}
+	if nSinks < 20 {
+		c.Lost("only %d asm calls taking a FieldOffset found in polprog (expected >= 20)", nSinks)
+	}
+	for _, key := range sortedKeys(res) {
+		a := res[key]
+		switch {
+		case len(a.bad) > 0:
+			c.Violate(key, a.site, "%s", strings.Join(a.bad, " | "))
+		case len(a.undec) > 0:
+			c.Undecided(key, a.site, "%s", strings.Join(a.undec, " | "))
+		default:
+			sort.Strings(a.ok)
+			c.Ok(key, a.site, "%d access(es) stay inside the member in %d builds: %s", len(a.ok), len(recs), strings.Join(c13uniq(a.ok), ", "))
+		}
+	}
+}
+
+func c13because(note string) string {
+	if note == "" {
+		return ""
+	}
+	return " (" + note + ")"
+}
+
+func c13uniq(xs []string) []string {
+	var out []string
+	for i, x := range xs {
+		if i == 0 || x != xs[i-1] {
+			out = append(out, x)
+		}
+	}
+	return out
 }
 
 // ----------------------------------------------------------------- mirror --
